@@ -430,6 +430,24 @@ func (l *lane) judge(id, op, point string, j int, p *prepared, cl *s3c.Client, a
 			}
 		}
 	}
+	// a listing rolled up at "/" names no prefix under which nothing is listed (a directory left behind by the
+	// interrupted request would show up here and nowhere else)
+	if dr := cl.Do(&s3c.Req{Method: "GET", Path: s3c.BucketPath(b), Query: s3c.Q("list-type", "2", "delimiter", "/")}); dr.OK() {
+		if res, err := s3c.ParseList(dr.Body); err == nil {
+			for _, cpe := range res.CommonPrefixes {
+				cp := cpe.Prefix
+				below := 0
+				for k := range listed {
+					if strings.HasPrefix(k, cp) {
+						below++
+					}
+				}
+				if below == 0 {
+					viol("leftover-directory-listed-as-prefix", fmt.Sprintf("ListObjectsV2 delimiter=/ reports the common prefix %q, the listing without delimiter has no key below it", cp))
+				}
+			}
+		}
+	}
 	known := map[string]bool{}
 	for _, k := range p.keys {
 		known[k.Key] = true
